@@ -1,11 +1,110 @@
 import Tmcg.Driver
+import Tmcg.Model.Aio2
 /-
-  Line-protocol handlers of area "aio2" — filled by the builder of that area.
-  Line formats: top of harness/drv_aio2.cc.
+  Line-protocol handlers of area "aio2" (second part of C13: chunked mode, the non-blocking class,
+  several peers).  Line formats: top of harness/drv_aio2.cc.
 -/
 namespace Tmcg.DriverAio2
-open Tmcg Tmcg.Driver
+open Tmcg Tmcg.Driver Tmcg.Aio Tmcg.Aio2
 
-def handlers : List (String × Handler) := []
+def pCls : String → Option Cls
+  | "select" => some .select
+  | "nonblock" => some .nonblock
+  | _ => none
+
+def pMode (cls auth enc chunked : String) : Option Mode := do
+  let c ← pCls cls; let a ← pNat auth; let e ← pNat enc; let k ← pNat chunked
+  some { cls := c, auth := a = 1, enc := e = 1, chunked := k = 1 }
+
+/-- `mpz_sizeinbase(tmp, 62)` is the number of digits or one more: anything else is a harness error -/
+def estOk (md : Mode) (m : Int) (est : Nat) : Bool :=
+  let tmp := if md.enc then m + hideLength else m
+  let d := (strBytes (Codec.str62 (tmp.natAbs : Nat))).length
+  est = d || est = d + 1
+
+/-- aio2.send auth enc chunked ivsent sqn calls chunkout m est ivhex [maclog] [enclog]
+      => ret ivsent' sqn' calls' chunkout' wirehex          (select class, link takes everything) -/
+def hSend : Handler
+  | [auth, enc, chunked, ivs, sqn, calls, cout, m, est, iv, maclog, enclog] => do
+    let md ← pMode "select" auth enc chunked
+    let ivs ← pNat ivs; let sqn ← pNat sqn; let calls ← pNat calls; let cout ← pNat cout
+    let m ← pInt m; let est ← pNat est; let iv ← pHex iv
+    let maclog ← pHexTuples maclog; let enclog ← pHexTuples enclog
+    if !estOk md m est then some "bad-est" else
+    some (withCrypto maclog [] enclog [] fun cr =>
+      match send2 md cr iv { ivSent := ivs = 1, sqn := sqn, enc := { calls := calls, chunkOut := cout } } m est with
+      | none => "0"
+      | some (tx, w) => s!"1 {showBool tx.ivSent} {tx.sqn} {tx.enc.calls} {tx.enc.chunkOut} {hexOfBytes w}")
+  | _ => none
+
+/-- aio2.nbsend auth enc chunked ivsent sqn calls macacchex m est ivhex queuehex cap fiv fbody fmac [drains] [maclog] [enclog]
+      => ret ivsent' sqn' calls' macacchex' nwritten writtenhex queuehex' drainsused -/
+def hNbSend : Handler
+  | [auth, enc, chunked, ivs, sqn, calls, macacc, m, est, iv, q, cap, fiv, fbody, fmac, drains, maclog, enclog] => do
+    let md ← pMode "nonblock" auth enc chunked
+    let ivs ← pNat ivs; let sqn ← pNat sqn; let calls ← pNat calls; let macacc ← pHex macacc
+    let m ← pInt m; let est ← pNat est; let iv ← pHex iv; let q ← pHex q; let cap ← pNat cap
+    let fiv ← pNat fiv; let fbody ← pNat fbody; let fmac ← pNat fmac; let drains ← pNatList drains
+    let maclog ← pHexTuples maclog; let enclog ← pHexTuples enclog
+    if !estOk md m est then some "bad-est" else
+    some (withCrypto maclog [] enclog [] fun cr =>
+      let tx : Tx2 := { ivSent := ivs = 1, sqn := sqn, enc := { calls := calls }, macAcc := macacc }
+      let (ret, tx', l', ds') := nbSend md cr iv tx m est { out := q, taken := 0, cap := cap } ⟨fiv, fbody, fmac⟩ drains
+      let written := l'.out.drop q.length
+      s!"{showBool ret} {showBool tx'.ivSent} {tx'.sqn} {tx'.enc.calls} {hexOfBytes tx'.macAcc} {written.length} {hexOfBytes written} {hexOfBytes l'.queue} {drains.length - ds'.length}")
+  | _ => none
+
+def mkRx (buf : Bytes) (flag ivseen sqn calls : Nat) (chunkin : Int) : Rx2 :=
+  { buf := buf, flag := flag = 1, ivSeen := ivseen = 1, sqn := sqn, calls := calls, chunkIn := chunkin }
+
+def showRx (rx : Rx2) : String :=
+  s!"{hexOfBytes rx.buf} {showBool rx.flag} {showBool rx.ivSeen} {rx.sqn} {rx.calls} {rx.chunkIn}"
+
+/-- aio2.recv cls auth enc chunked n bufhex flag ivseen sqn calls chunkin pipehex [veriflog] [declog]
+      => bufhex' flag' ivseen' sqn' calls' chunkin' pipehex' result -/
+def hRecv : Handler
+  | [cls, auth, enc, chunked, n, buf, flag, ivseen, sqn, calls, cin, pipe, veriflog, declog] => do
+    let md ← pMode cls auth enc chunked
+    let n ← pNat n; let buf ← pHex buf; let flag ← pNat flag; let ivseen ← pNat ivseen
+    let sqn ← pNat sqn; let calls ← pNat calls; let cin ← pInt cin; let pipe ← pHex pipe
+    let veriflog ← pHexTuples veriflog; let declog ← pHexTuples declog
+    some (withCrypto [] veriflog [] declog fun cr =>
+      let (rx', pipe', res) := receive2 md cr n (mkRx buf flag ivseen sqn calls cin) pipe
+      s!"{showRx rx'} {hexOfBytes pipe'} {showParse res}")
+  | _ => none
+
+def pPeer (s : String) : Option Peer :=
+  match s.splitOn ":" with
+  | [buf, flag, ivseen, sqn, calls, cin, pipe] => do
+    let buf ← pHex buf; let flag ← pNat flag; let ivseen ← pNat ivseen
+    let sqn ← pNat sqn; let calls ← pNat calls; let cin ← pInt cin; let pipe ← pHex pipe
+    some ⟨mkRx buf flag ivseen sqn calls cin, pipe⟩
+  | _ => none
+
+def showPeer (p : Peer) : String :=
+  s!"{hexOfBytes p.rx.buf}:{showBool p.rx.flag}:{showBool p.rx.ivSeen}:{p.rx.sqn}:{p.rx.calls}:{p.rx.chunkIn}:{hexOfBytes p.pipe}"
+
+def pSched : String → Option Sched
+  | "rr" => some .rr
+  | "rnd" => some .rnd
+  | "direct" => some .direct
+  | _ => none
+
+/-- aio2.recvn cls auth enc chunked n sched cur idirect [words] [peer,…] [veriflog] [declog]
+      => cur' wordsused iout result [peer',…]        peer = bufhex:flag:ivseen:sqn:calls:chunkin:pipehex -/
+def hRecvN : Handler
+  | [cls, auth, enc, chunked, n, sched, cur, idir, words, peers, veriflog, declog] => do
+    let md ← pMode cls auth enc chunked
+    let n ← pNat n; let sched ← pSched sched; let cur ← pNat cur; let idir ← pNat idir
+    let words ← pNatList words; let peers ← pList peers; let peers ← peers.mapM pPeer
+    let veriflog ← pHexTuples veriflog; let declog ← pHexTuples declog
+    some (withCrypto [] veriflog [] declog fun cr =>
+      let (nd, ws, out) := recvN md (fun _ => cr) n sched idir n { peers := peers, cur := cur } words
+      s!"{nd.cur} {words.length - ws.length} {out.iOut} {showParse out.res} [{",".intercalate (nd.peers.map showPeer)}]")
+  | _ => none
+
+def handlers : List (String × Handler) := [
+  ("aio2.send", hSend), ("aio2.nbsend", hNbSend), ("aio2.recv", hRecv), ("aio2.recvn", hRecvN)
+]
 
 end Tmcg.DriverAio2
